@@ -30,6 +30,7 @@ import (
 	"time"
 
 	"github.com/AliceO2Group/Control/common/utils"
+	"github.com/AliceO2Group/Control/common/verifhook"
 	"github.com/rs/xid"
 	"github.com/sirupsen/logrus"
 )
@@ -144,6 +145,7 @@ func (s *Servent) RunCommand(cmd MesosCommand, receiver MesosCommandTarget) (Mes
 		// By the time we get here, ProcessResponse should have already added a Response to the
 		// pending call, and removed it from servent.pending.
 	case <-time.After(cmd.GetResponseTimeout()):
+		verifhook.Point("servent.timeout.beforeUnregister")
 		call.Error = fmt.Errorf("%s timed out for task %s", cmd.GetName(), receiver.TaskId.Value)
 
 		log.WithPrefix("servent").
@@ -192,6 +194,7 @@ func (s *Servent) ProcessResponse(res MesosCommandResponse, sender MesosCommandT
 		return
 	}
 
+	verifhook.Point("servent.response.beforeDone")
 	call.Response = res
 	call.Done <- empty{}
 }
